@@ -1305,6 +1305,45 @@ def _hoist_helper_arg(st, resolve, owner):
     return None
 
 
+def fuse_comprehensions(func):
+    """`xs = [E(t) for t in IT if C]` ... `[F(x) for x in xs if D]` with `xs` a local bound once and read once (as that iterable)  ->
+    `[F(E(t)) for t in IT if C if D(E(t))]`: the intermediate list is never seen by anything else, each element is built and consumed
+    in the same order.  E must be free of side effects (no walrus / await / yield); in place, returns func."""
+    body = func.body
+    loads, stores = {}, {}
+    for n in ast.walk(func):
+        if isinstance(n, ast.Name):
+            (loads if isinstance(n.ctx, ast.Load) else stores).setdefault(n.id, []).append(n)
+    for i, st in enumerate(list(body)):
+        if not (isinstance(st, ast.Assign) and len(st.targets) == 1 and isinstance(st.targets[0], ast.Name) and isinstance(st.value, ast.ListComp)):
+            continue
+        name, inner = st.targets[0].id, st.value
+        if len(stores.get(name, [])) != 1 or len(loads.get(name, [])) != 1 or len(inner.generators) != 1 or inner.generators[0].is_async:
+            continue
+        if any(isinstance(x, (ast.NamedExpr, ast.Await, ast.Yield, ast.YieldFrom, ast.Lambda)) for x in ast.walk(inner)):
+            continue
+        use = loads[name][0]
+        for later in body[i + 1:]:
+            for outer in ast.walk(later):
+                if isinstance(outer, (ast.ListComp, ast.GeneratorExp)) and len(outer.generators) == 1 and outer.generators[0].iter is use \
+                        and isinstance(outer.generators[0].target, ast.Name) and not outer.generators[0].is_async:
+                    g_in, g_out = inner.generators[0], outer.generators[0]
+                    var = g_out.target.id
+                    inner_names = {x.id for x in ast.walk(g_in.target) if isinstance(x, ast.Name)}
+                    # the inner loop variables must not capture names the outer element / filters read
+                    outer_reads = {x.id for part in [outer.elt] + list(g_out.ifs) for x in ast.walk(part) if isinstance(x, ast.Name)} - {var}
+                    if inner_names & outer_reads:
+                        break
+                    m = {var: inner.elt}
+                    outer.elt = _Subst(dict(m)).visit(outer.elt)
+                    new_ifs = list(g_in.ifs) + [_Subst(dict(m)).visit(c) for c in g_out.ifs]
+                    outer.generators = [ast.comprehension(target=copy.deepcopy(g_in.target), iter=g_in.iter, ifs=new_ifs, is_async=0)]
+                    body.remove(st)
+                    ast.fix_missing_locations(func)
+                    return fuse_comprehensions(func)
+    return func
+
+
 def _writelines_loops(func, resolve):
     """statement `F.writelines(self._pieces(..))` with `_pieces` a generator helper  ->  `for piece in self._pieces(..): F.write(piece)`
     (what writelines does with an iterable of strings), so that the producer can be merged into the loop (inline_generator_loops)"""
